@@ -6,6 +6,7 @@ import (
 	"encoding/json"
 	"fmt"
 	"math/rand"
+	"regexp"
 	"sort"
 	"strings"
 	"testing"
@@ -266,9 +267,9 @@ func execute(t *testing.T, p *Plan, trace bool, out *Outcome) {
 		for _, pr := range s.Panics {
 			cls, sig := "panic", "panic:"+pr.Site+":"+firstLine(pr.Value)
 			if pr.App {
-				sig = "panic(app):" + firstRepoFrame(pr.Stack) + ":" + firstLine(pr.Value)
+				sig = "panic(app):" + firstRepoFrame(pr.Stack) + ":" + sigLine(pr.Value)
 			} else {
-				sig = "panic(lib):" + firstRepoFrame(pr.Stack) + ":" + firstLine(pr.Value)
+				sig = "panic(lib):" + firstRepoFrame(pr.Stack) + ":" + sigLine(pr.Value)
 			}
 			e.Violatef(cls, sig, "%s panicked: %s\n%s", pr.G, pr.Value, pr.Stack)
 		}
@@ -336,6 +337,11 @@ func siteSet(gs []*simrt.G) []string {
 	sort.Strings(out)
 	return out
 }
+
+var digitsRe = regexp.MustCompile(`[0-9]+`)
+
+// sigLine normalises a message for use in a signature (numbers vary with the input).
+func sigLine(s string) string { return digitsRe.ReplaceAllString(firstLine(s), "N") }
 
 func firstLine(s string) string {
 	if i := strings.IndexByte(s, '\n'); i >= 0 {
